@@ -3,4 +3,5 @@ NEXT Next
 INVARIANT InvExactlyDeclared
 INVARIANT InvNothingLost
 INVARIANT Emit
+INVARIANT EmitTypes
 CHECK_DEADLOCK FALSE
